@@ -659,6 +659,7 @@ fn vals_tok(el: &str, n: usize, rng: &mut Rng) -> String {
 /// aenc then adec of the produced bytes; oracle C10 array round trip
 fn array_roundtrip_case(out: &mut Out, el: &str, vals: &str, stat: &str) {
     out.begin_case("codec new", "ok");
+    out.set_desc(format!("rt {} {}", el, vals));
     let enc = line(out, &format!("codec aenc {} {}", el, vals));
     let hx = enc.strip_prefix("bytes ").unwrap_or("-").to_string();
     let dec = line(out, &format!("codec adec {} {}", el, hx));
@@ -976,7 +977,14 @@ pub fn run(args: &Args, out: &mut Out) -> &'static str {
     RULE
 }
 
-pub fn replay(_desc: &str, lines: &[String], out: &mut Out) {
+pub fn replay(desc: &str, lines: &[String], out: &mut Out) {
+    if let Some(rest) = desc.strip_prefix("rt ") {
+        let mut it = rest.split(' ');
+        let el = it.next().unwrap().to_string();
+        let vals = it.next().unwrap_or("_").to_string();
+        array_roundtrip_case(out, &el, &vals, "replay");
+        return;
+    }
     let mut first = true;
     for l in lines {
         let a = exec(l, out);
